@@ -315,7 +315,27 @@ func (h *handler) processUnaryRpc(
 ) *goatorepo.Rpc {
 	ctx, cancel, err := contextFromHeaders(clientCtx, rpc.GetHeader())
 	if err != nil {
-		log.Panic().Err(err).Msg("Server: failed to get context from headers")
+		// Undecodable request metadata is the peer's fault: answer it, do not
+		// bring the process down.
+		cancel()
+		log.Warn().Err(err).Msg("Server: failed to get context from headers")
+		respHeader := &goatorepo.RequestHeader{
+			Method:      rpc.Header.Method,
+			Source:      rpc.Header.Destination,
+			Destination: rpc.Header.Source,
+		}
+		if len(rpc.Header.ProxyRecord) > 1 {
+			respHeader.ProxyNext = rpc.Header.ProxyRecord[0 : len(rpc.Header.ProxyRecord)-1]
+		}
+		return &goatorepo.Rpc{
+			Id:     rpc.GetId(),
+			Header: respHeader,
+			Status: &goatorepo.ResponseStatus{
+				Code:    int32(codes.Internal),
+				Message: "malformed request metadata: " + err.Error(),
+			},
+			Trailer: &goatorepo.Trailer{},
+		}
 	}
 	defer cancel()
 	// The handler's context derives from the context given to Serve; the end
